@@ -7,6 +7,8 @@
 
 package s2
 
+//@ import "math"
+
 //@ property C10
 
 // the lat-lng bound of a cell union contains the bound of each of its cells
@@ -48,3 +50,37 @@ package s2
 //@   ensures [bound-is-the-loops] vcSame(p.bound, p.loops[0].bound)
 //@   ensures [sub-bound] vcSame(p.subregionBound, ExpandForSubregions(p.bound))
 //@   ensures [vertex-count] p.numVertices == len(p.loops[0].vertices)
+
+//@ import "math"
+
+//@ property C10
+
+// ---------------------------------------------------------------- convex hull: every input vertex reaches the hull computation
+
+// (the loop's vertex array is not the query's own point buffer: append copies into that buffer)
+//@ func (q *ConvexHullQuery) AddLoop(l *Loop)
+//@   requires q != nil && l != nil && (vcArr(l.vertices) != vcArr(q.points) || vcArr(q.points) == 0)
+//@   modifies q.bound, q.points
+//@   ensures [buffer] vcArr(q.points) == old(vcArr(q.points)) || vcFreshSlice(q.points)
+//@   ensures [kept] len(q.points) >= old(len(q.points)) && (forall m int :: 0 <= m && m < old(len(q.points)) ==> vcSame(q.points[m], vcPreElem(old(q.points), m)))
+//@   ensures [appended] len(l.vertices) != 1 ==> len(q.points) == old(len(q.points))+len(l.vertices) && (forall v int :: 0 <= v && v < len(l.vertices) ==> vcSame(q.points[old(len(q.points))+v], l.vertices[v]))
+
+// every vertex of every outer shell (depth 0, not the one-vertex empty/full loop) is among the points the hull is built from
+//@ func (q *ConvexHullQuery) AddPolygon(p *Polygon)
+//@   ghost k int, v int
+//@   requires q != nil && p != nil && (forall j int :: 0 <= j && j < len(p.loops) ==> p.loops[j] != nil && vcAllocated(p.loops[j].vertices) && (vcArr(p.loops[j].vertices) != vcArr(q.points) || vcArr(q.points) == 0))
+//@   modifies q.bound, q.points
+//@   ensures [shell-vertices-recorded] 0 <= k && k < len(p.loops) && p.loops[k].depth == 0 && len(p.loops[k].vertices) != 1 && 0 <= v && v < len(p.loops[k].vertices) ==>
+//@      (exists m int :: 0 <= m && m < len(q.points) && vcSame(q.points[m], p.loops[k].vertices[v]))
+//@   ensures [kept] len(q.points) >= old(len(q.points)) && (forall m int :: 0 <= m && m < old(len(q.points)) ==> vcSame(q.points[m], vcPreElem(old(q.points), m)))
+//@   loop 1 (rangeindex int): invariant [recorded-so-far] 0 <= k && k <= rangeindex && p.loops[k].depth == 0 && len(p.loops[k].vertices) != 1 && 0 <= v && v < len(p.loops[k].vertices) ==>
+//@      (exists m int :: 0 <= m && m < len(q.points) && vcSame(q.points[m], p.loops[k].vertices[v]))
+//@   loop 1: invariant [allocated] forall j int :: 0 <= j && j < len(p.loops) ==> vcAllocated(p.loops[j].vertices)
+//@   loop 1: invariant [buffers] forall j int :: 0 <= j && j < len(p.loops) ==> (vcArr(p.loops[j].vertices) != vcArr(q.points) || vcArr(q.points) == 0)
+//@   loop 1: invariant [kept] q != nil && len(q.points) >= old(len(q.points)) && (forall m int :: 0 <= m && m < old(len(q.points)) ==> vcSame(q.points[m], vcPreElem(old(q.points), m)))
+
+// A lat-lng rectangle wider than 180 degrees in longitude is bounded by a cap about a pole (its corners are then not the
+// points farthest from its centre, so the centre cap would not contain it)
+//@ func (r Rect) CapBound() Cap
+//@   ensures [wide-gives-pole-cap] !r.IsEmpty() && !(math.Remainder(r.Lng.Hi-r.Lng.Lo, 2*math.Pi) >= 0) ==> vcSame(result.center.X, float64(0)) && vcSame(result.center.Y, float64(0))
+//@   ensures [empty] r.IsEmpty() ==> result.IsEmpty()
